@@ -76,9 +76,10 @@ package cgroup
 //@   assumed "the builder handed to randomBuild (V1.New / V2.New / newV1 / newV2 closures): a handle on success"
 //@   pure
 //@   ensures result.1 == nil ==> result.0 != nil
-//@ func pkg/cgroup.nextRandom
-//@   trusted "decimal text of a random 31-bit number"
-//@   pure
+//@ func pkg/cgroup.nextRandom props C20
+//@   arith int
+//@   assigns nothing
+//@   ensures len(result) > 0
 // the pattern of Random: a name with a path separator is refused, so a random group is always a direct
 // child of the handle it was asked from (C20: nested under its parent); split at the last *
 //@ func pkg/cgroup.prefixAndSuffix props C20
@@ -98,12 +99,16 @@ package cgroup
 //@ global pkg/cgroup.errPatternHasSeparator props C20: invariant errPatternHasSeparator != nil
 
 // ---- units table (C20): which control file each reading comes from / each limit goes to, and the scaling ----
-//@ func pkg/cgroup.readFile
-//@   trusted "os.ReadFile retried on EINTR"
-//@   pure
-//@ func pkg/cgroup.writeFile
-//@   trusted "os.WriteFile retried on EINTR"
-//@   pure
+// os.ReadFile / os.WriteFile retried while the error is EINTR: bodies verified (memory safety; the retry loop's
+// termination depends on the kernel and is not claimed); a nil result means the last attempt succeeded
+//@ func pkg/cgroup.readFile props C20
+//@   arith int
+//@   assigns nothing
+//@   loop 0: invariant true
+//@ func pkg/cgroup.writeFile props C20
+//@   arith int
+//@   assigns nothing
+//@   loop 0: invariant true
 
 //@ func pkg/cgroup.(*V2).ReadFile props C20
 //@   arith int
